@@ -252,6 +252,7 @@ fn case_strategy() -> impl Strategy<Value = Case> {
         60 => decimal_case(),
         6 => (int_ty_strategy(), zero_literal()).prop_map(|(ty, lit)| Case::Decimal { ty, lit }),
         12 => (int_ty_strategy(), wide_literal()).prop_map(|(ty, lit)| Case::Decimal { ty, lit }),
+        1 => (int_ty_strategy(), crate::gen::lit::compensated_exponent_literal()).prop_map(|(ty, lit)| Case::Decimal { ty, lit }),
         2 => (int_ty_strategy(), crate::gen::lit::extreme_exponent_literal()).prop_map(|(ty, lit)| Case::Decimal { ty, lit }),
         8 => (int_ty_strategy(), prop_oneof![Just('H'), Just('Q'), Just('B')], nondecimal_value(), any::<bool>())
             .prop_map(|(ty, radix, value, lower)| Case::NonDecimal { ty, radix, value, lower }),
